@@ -1,10 +1,11 @@
 SPECIFICATION TSpec
 CONSTANTS
-  Classes = {"OwnBare", "OwnBareCase", "OwnFullSelf", "OwnFullOther", "OwnBareSlash", "OwnBareSpace", "Domain", "SuffixLookalike", "PrefixLookalike", "Truncated", "Empty", "Contact", "ContactFull", "OwnAsResource", "Homoglyph", "PreviousOwnBare"}
+  Classes = {"OwnBare", "OwnBareCase", "OwnFullSelf", "OwnFullOther", "OwnBareSlash", "OwnBareSpace", "Domain", "SuffixLookalike", "PrefixLookalike", "Truncated", "Empty", "Contact", "ContactFull", "OwnAsResource", "Homoglyph", "PreviousOwnBare", "OwnFullPrefix"}
   Wrappers = {"none", "sent", "received", "sentBody", "recvBody", "privSent", "both", "nestedSent", "nestedRecv", "emptyCarbon", "fwdWrongNs", "msgWrongNs", "fwdOnly", "wrongNs"}
   Inners = {"chatIn", "chatOut", "spoof", "noBody", "error", "rich", "private", "noCopy", "delay", "headline", "groupchat", "fwdInside"}
   Gens = {"v1", "v2"}
   JidCfgs = {"plain", "nores", "mixed"}
+  Estabs = {"configured", "boundPlain", "boundSlash", "boundAt", "boundUnicode", "boundLong"}
   Hows = {"setJid", "setUserDomain", "assign", "copySetJid"}
   MaxHist = 99
 INVARIANT Done
